@@ -111,6 +111,10 @@ pub struct ServerScn {
     /// is wrapped twice, the looser limit inside (true) or outside (false).
     #[serde(default)]
     pub chain: Option<(usize, bool)>,
+    /// The (first) limit is a listener-wide default (`Incoming::max_concurrent_requests_per_channel`)
+    /// instead of a call on the channel itself.
+    #[serde(default)]
+    pub via_listener: bool,
     /// Clock jumps: at virtual ms `.0` the clock is advanced by `.1` ms at once.
     #[serde(default)]
     pub jumps: Vec<(u64, u64)>,
@@ -191,6 +195,7 @@ fn gen_parked(rng: &mut Rng) -> ServerScn {
         jumps: vec![],
         pre_read: 0,
         chain: None,
+        via_listener: false,
     }
 }
 
@@ -223,6 +228,7 @@ fn gen_flood(rng: &mut Rng) -> ServerScn {
         jumps: vec![],
         pre_read: 0,
         chain: if rng.chance(250) { Some((limit + rng.range(1, 40) as usize, rng.chance(500))) } else { None },
+        via_listener: rng.chance(200),
     }
 }
 
@@ -459,6 +465,7 @@ pub fn gen(rng: &mut Rng, focus: SFocus) -> ServerScn {
             Some(l) if rng.chance(if focus == SFocus::Limit { 200 } else { 60 }) => Some((l + rng.range(1, 3) as usize, rng.chance(500))),
             _ => None,
         },
+        via_listener: limit.is_some() && rng.chance(150),
     }
 }
 
@@ -493,6 +500,7 @@ fn gen_overdue_reuse(rng: &mut Rng) -> ServerScn {
         jumps: vec![(3, 12)],
         pre_read: 0,
         chain: None,
+        via_listener: false,
     }
 }
 
@@ -533,6 +541,7 @@ fn gen_mega(rng: &mut Rng) -> ServerScn {
         jumps: vec![],
         pre_read: 0,
         chain: None,
+        via_listener: false,
     }
 }
 
@@ -569,6 +578,7 @@ fn gen_cancel_flood(rng: &mut Rng) -> ServerScn {
         jumps: vec![],
         pre_read: 0,
         chain: None,
+        via_listener: false,
     }
 }
 
@@ -611,6 +621,7 @@ fn gen_limit_backpressure(rng: &mut Rng) -> ServerScn {
         jumps: vec![],
         pre_read: 0,
         chain: None,
+        via_listener: false,
     }
 }
 
@@ -650,6 +661,7 @@ fn gen_prebusy(rng: &mut Rng) -> ServerScn {
         jumps: vec![],
         pre_read: pre as u8,
         chain: None,
+        via_listener: false,
     }
 }
 
@@ -931,6 +943,17 @@ server_task_impl!(
     server::limits::requests_per_channel::MaxRequests<server::limits::requests_per_channel::MaxRequests<BaseChannel<u64, u64, T>>>
 );
 
+/// The channel as a listener with a default per-channel limit hands it out.
+fn from_listener<T>(base: BaseChannel<u64, u64, T>, limit: usize) -> server::limits::requests_per_channel::MaxRequests<BaseChannel<u64, u64, T>>
+where
+    T: tarpc::Transport<Response<u64>, ClientMessage<u64>> + 'static,
+{
+    use futures::{FutureExt, StreamExt};
+    use tarpc::server::incoming::Incoming;
+    let mut listener = Box::pin(futures::stream::iter(vec![base]).max_concurrent_requests_per_channel(limit));
+    listener.next().now_or_never().flatten().expect("the listener yields the channel it was given")
+}
+
 type TaskFuture = Pin<Box<dyn Future<Output = ()>>>;
 type MonFn = Rc<dyn Fn(bool, bool)>;
 type PlanFn = Rc<dyn Fn(u64) -> HandlerPlan>;
@@ -1138,7 +1161,16 @@ pub fn run(scn: &ServerScn, tape: Tape, _logging: bool) -> RunOutput {
                     let (looser, inside) = scn.chain.unwrap();
                     sim.count("probe.two_limits_on_one_channel");
                     let (first, second) = if inside { (looser.max(l), l) } else { (l, looser.max(l)) };
-                    sim.spawn("server", base.max_concurrent_requests(first).max_concurrent_requests(second).run_limited(sim.clone(), 0, mon, plans, shared.clone()))
+                    if scn.via_listener {
+                        sim.count("probe.limit_from_listener_default");
+                        sim.spawn("server", from_listener(base, first).max_concurrent_requests(second).run_limited(sim.clone(), 0, mon, plans, shared.clone()))
+                    } else {
+                        sim.spawn("server", base.max_concurrent_requests(first).max_concurrent_requests(second).run_limited(sim.clone(), 0, mon, plans, shared.clone()))
+                    }
+                }
+                Some(l) if scn.via_listener => {
+                    sim.count("probe.limit_from_listener_default");
+                    sim.spawn("server", server_task_limited(sim.clone(), 0, from_listener(base, l), mon, plans, shared.clone()))
                 }
                 Some(l) => sim.spawn("server", server_task_limited(sim.clone(), 0, base.max_concurrent_requests(l), mon, plans, shared.clone())),
                 None => sim.spawn("server", server_task(sim.clone(), 0, base, mon, plans, shared.clone())),
